@@ -9,9 +9,60 @@ import json, os
 FILES = ["Base/Prelude.v", "Base/Dec.v", "Model/Basket.v", "Model/C11Check.v", "Proofs/Basket.v"]
 
 
+def REPO_PATH():
+    return os.environ.get("VERIF_REPO", "/repo")
+
+
 def feature(case, clause):
     """distinguishing feature of the first step of the history that belongs to the clause's operation kind"""
     return clause
+
+
+# who may write the basket store / basket books: pinned, so that a new writer (another module, a new
+# handler) breaks an obligation until it is put into the harness alphabet and the model
+PINNED_EXTERNAL = sorted([
+    "app/app.go: baskettypes.ModuleName: {authtypes.Minter, authtypes.Burner},",
+    "app/app.go: BasketKeeper basketkeeper.Keeper",
+    "app/app.go: baskettypes.ModuleName,",
+    "app/app.go: app.BasketKeeper = basketkeeper.NewKeeper(",
+    "app/app.go: keys[baskettypes.ModuleName], appCodec,",
+    "app/app.go: slashingtypes.NewMultiSlashingHooks(app.BasketKeeper.Hooks()),",
+    "app/app.go: multistakingtypes.NewMultiStakingHooks(app.BasketKeeper.Hooks()),",
+    "app/app.go: basket.NewApplyCreateBasketProposalHandler(app.BasketKeeper),",
+    "app/app.go: basket.NewApplyEditBasketProposalHandler(app.BasketKeeper),",
+    "app/app.go: basket.NewApplyBasketWithdrawSurplusProposalHandler(app.BasketKeeper),",
+    "app/app.go: basket.NewAppModule(app.BasketKeeper, app.CustomGovKeeper),",
+    "app/app.go: paramsKeeper.Subspace(baskettypes.ModuleName)",
+])
+PINNED_STORE_WRITERS = sorted(["SetLastBasketId", "SetBasket", "DeleteBasket", "SetMintAmount", "SetBurnAmount", "SetSwapAmount",
+                               "ClearOldMintAmounts", "ClearOldBurnAmounts", "ClearOldSwapAmounts"])
+PINNED_BOOK_WRITERS = sorted(["CreateBasket", "EditBasket", "MintBasketToken", "BurnBasketToken", "BasketSwap", "BasketWithdrawSurplus",
+                              "AfterSlashStakingPool", "AfterSlashProposalRaise", "DisableBasketDeposits", "DisableBasketWithdraws",
+                              "DisableBasketSwaps", "InitGenesis"])
+
+
+def writers(repo):
+    import re, glob
+    ext = set()
+    for f in glob.glob(os.path.join(repo, "**", "*.go"), recursive=True):
+        rel = os.path.relpath(f, repo)
+        if rel.endswith("_test.go") or rel.startswith("x/basket/"):
+            continue
+        for ln in open(f, errors="replace"):
+            if re.search(r"BasketKeeper|basketkeeper\.|baskettypes\.|basket\.New", ln):
+                ext.add(rel + ": " + " ".join(ln.split()))
+    store, books = set(), set()
+    for f in glob.glob(os.path.join(repo, "x", "basket", "**", "*.go"), recursive=True):
+        if f.endswith("_test.go") or f.endswith(".pb.go") or f.endswith(".pb.gw.go") or "/client/" in f:
+            continue
+        src = open(f, errors="replace").read()
+        for m in re.finditer(r"^func (?:\([^)]*\) )?(\w+)\(.*?^}", src, re.M | re.S):
+            body = m.group(0)
+            if re.search(r"store\.(Set|Delete)\(", body):
+                store.add(m.group(1))
+            if re.search(r"\.SetBasket\(", body):
+                books.add(m.group(1))
+    return sorted(ext), sorted(store), sorted(books)
 
 
 def observe(R, n, seed=None):
@@ -49,6 +100,10 @@ def run(R):
                  "underlying denominations are unique in a basket (CreateBasket/EditBasket reject duplicates; modelled) and weights are positive in generated configurations",
                  "block times are unix nanoseconds (sub-second parts, several messages per block time); limits periods stay below 2^33 s",
                  "holders act on basket 1; the other baskets (ids 2..) are funded through the real msg server before the history starts and are afterwards touched only by the create / withdraw-surplus proposals; the staking-reward claim at the end of BasketWithdrawSurplus is not modelled (the module account holds no delegation in the harness)"]
+    ext, store, books = writers(REPO_PATH())
+    R.oblige("pinned writers: references to the basket keeper outside x/basket", ext == PINNED_EXTERNAL, "now: %s" % json.dumps(ext))
+    R.oblige("pinned writers: functions writing the basket store", store == PINNED_STORE_WRITERS, "now: %s" % json.dumps(store))
+    R.oblige("pinned writers: functions storing a basket record", books == PINNED_BOOK_WRITERS, "now: %s" % json.dumps(books))
     R.coq_files(FILES)
     R.coq_property()
     R.audit()
